@@ -26,6 +26,8 @@ EXPLANATION = (
     "the call that created it (getters are functions of the value, without memo); (i) the **kwargs of the three constructors are handed to var_context.update "
     "whole -- no comprehension, loop or test selects among them by value.  Does not decide the nested-dictionary values (that compose lists types in order for all chains).")
 RULES = {
+    "C14-j": "TYPE KEYS LITERAL: the variables module addresses context.variable by plain keys; a type, a name or another user "
+             "string is never handed to the dotted-path helpers of lena.context (where 'a.b' means nesting)",
     "C14-a": "FOLD: Compose getter/context and Combine getter iterate self._vars forwards, threading the value",
     "C14-b": "FRESH: every var_context given to _update_context / stored in combine is a per-call deepcopy; __call__ does not write self",
     "C14-c": "locality: _update_context stores only under context['variable'] and carries the subcontexts of all composed "
@@ -769,7 +771,47 @@ def check_attributes_verbatim(ctx):
     ctx.instances_floor("C14-i", n, 3, "constructors with keyword attributes")
 
 
+PATH_HELPERS = {"lena.context.functions.update_recursively": 1, "lena.context.functions.get_recursively": 1,
+                "lena.context.functions.str_to_dict": 0, "lena.context.functions.contains": 1,
+                "lena.context.functions.str_to_list": 0}
+
+
+def check_type_keys_literal(ctx):
+    """C14-j.  The attributes of a composed variable stay available under its type: var_context[type].  _update_context
+    finds them there by subscription.  update_recursively(d, "particle.lepton", v) / str_to_dict would store them under
+    d["particle"]["lepton"] instead -- for a type that contains a dot the key the rest of the module reads is never made.
+    In lena.variables.variable the path argument of these helpers may only be a string constant."""
+    n = 0
+    bad = 0
+    for mod, fn in ctx.tree.functions():
+        if mod.name != "lena.variables.variable":
+            continue
+        for c in A.walk_local(fn):
+            if not isinstance(c, ast.Call):
+                continue
+            canon = ctx.res.call_canon(c)
+            if canon not in PATH_HELPERS:
+                continue
+            i = PATH_HELPERS[canon]
+            if canon.endswith("update_recursively") and len(c.args) + len(c.keywords) < 3:
+                continue      # update_recursively(d, other): a dictionary merge, no path involved
+            n += 1
+            if i < len(c.args) and not (isinstance(c.args[i], ast.Constant) and isinstance(c.args[i].value, str)):
+                bad += 1
+                ctx.violation("C14-j", c, "%s addresses a variable context with `%s`: `%s` is a user string (a type or a name) and the "
+                              "helper reads dots in it as nesting, so for a type like 'particle.lepton' the sub-context is stored under "
+                              "['particle']['lepton'] while _update_context looks for the key 'particle.lepton' -- the attributes of "
+                              "that variable are lost when it is composed" % (A.qualname(fn), A.short(c, 60), A.src(c.args[i])),
+                              construct="type-as-path:%s" % A.qualname(fn))
+    subs = sum(1 for mod, fn in ctx.tree.functions() if mod.name == "lena.variables.variable" for x in A.walk_local(fn)
+               if isinstance(x, ast.Subscript))
+    ctx.instances_floor("C14-j", subs, 10, "subscriptions in lena.variables.variable (the plain-key addressing the rule protects)")
+    if not bad:
+        ctx.ok("C14-j", ("lena.variables.variable", "<module>"), "%d calls of dotted-path helpers, none with a user string as path" % n)
+
+
 def check(ctx):
+    check_type_keys_literal(ctx)
     check_attributes_verbatim(ctx)
     check_pure_getters(ctx)
     ctx.instances_floor("C14-e/isinstance", K.check_isinstance_dispatch(ctx, "C14-e", ["lena.flow.functions", "lena.variables.variable", "lena.context.functions", "lena.context.context"], "lena.context.Context, OrderedDict as a context; a subclass of Variable"), 10, "isinstance tests in the value and variable helpers")
@@ -784,6 +826,7 @@ def check(ctx):
 
 
 VARIANTS = [
+    M("type-subcontext-by-path", "lena/variables/variable.py", "            varc.update(\n                {type: deepcopy(varc)}\n            )", "            lena.context.update_recursively(varc, type, deepcopy(varc))", ["C14-j"]),
     M("variable-drops-falsy-attributes", "lena/variables/variable.py", "        self.var_context.update(**kwargs)\n", "        self.var_context.update(\n            (key, val) for key, val in kwargs.items() if val\n        )\n", ["C14-i"]),
     M("combine-drops-none-attributes", "lena/variables/variable.py", "        var_context.update(kwargs)\n        assert \"dim\" not in kwargs", "        for key in kwargs:\n            if kwargs[key] is not None:\n                var_context[key] = kwargs[key]\n        assert \"dim\" not in kwargs", ["C14-i"]),
     M("combine-getter-memo", "lena/variables/variable.py", "        getter = lambda val: tuple(var.getter(val) for var in self._vars)\n",
